@@ -338,7 +338,9 @@ func (w *fsWallet) loadWalletFile(ctx context.Context, addr ethtypes.Address0xHe
 			log.L(ctx).Errorf("Failed to read '%s' (default password file): %s", w.conf.DefaultPasswordFile, err)
 			return nil, i18n.NewError(ctx, signermsgs.MsgWalletFailed, addr)
 		}
-
+		if w.conf.Filenames.PasswordTrimSpace {
+			password = []byte(strings.TrimSpace(string(password)))
+		}
 	}
 
 	// Ok - now we have what we need to open up the keyfile
